@@ -48,7 +48,7 @@ if ! go build -modfile="$S/go.mod" -o "$S/standin" "./$P" 2>"$S/build.err"; then
 fi
 # temporary directories of the driver (disk filespaces) live in the scratch directory removed on exit
 mkdir -p "$S/tmp"
-TMPDIR="$S/tmp" "$S/standin" $ARGS "$@" -out "$OUT" 2>"$S/run.err"; RC=$?
+TMPDIR="$S/tmp" timeout -k 5 3600 "$S/standin" $ARGS "$@" -out "$OUT" 2>"$S/run.err"; RC=$?
 cat "$S/run.err" >&2
 if [ $RC -ne 0 ] && [ $RC -ne 1 ] || [ ! -s "$OUT" ]; then
   # the real code brought the driver down (fatal error, panic in a goroutine it started, kill):
